@@ -170,6 +170,25 @@ CHECKS = {
         "Union member order may vary by the statement; trace sets stay below the query limit.",
         "6 C14",
     ),
+    "C15": (
+        "exploration",
+        "runtime monitoring: AST eraser-and-diff oracle, token-level comment check, annotation comparison, idempotence and re-execution of the applied module in a fresh interpreter",
+        "Generated importable sources are traced for real; the stub is applied (apply_stub_using_libcst and the `apply` CLI) for overwrite x k "
+        "x confinement: the result must parse, equal the original once annotations / new imports / generated TypedDict classes are erased, "
+        "keep every comment and existing annotation (unless overwriting), carry every stub annotation for unannotated positions, be unchanged "
+        "by a second application and re-run its workload with equal results.",
+        "libcst's transformation is judged, not assumed; four libcst-rooted defects are recorded as findings.",
+        "6 C15",
+    ),
+    "C16": (
+        "exploration",
+        "runtime monitoring: import-placement queries on the AST of the confined result + import/run of the result in a fresh interpreter",
+        "The C15 sources with six import styles for modules used at run time; with confinement on, the __future__ import must come first, every "
+        "newly introduced non-typing import must sit under `if TYPE_CHECKING:`, every source import must still be at its place, TypedDict must "
+        "stay a run-time import, and the module must import and re-run its workload with equal results.",
+        "typing names are not judged either way; duplicates of imports the source already has are not annotation-only.",
+        "6 C16",
+    ),
 }
 
 PENDING = {}
